@@ -157,6 +157,7 @@ class Interp:
         self.ignore_calls: set[str] = {"_griffe.logger.logger"}
         self.ext_handlers: dict[str, Callable[..., Any]] = {}
         self.stubs: dict[str, Callable[..., Any]] = {}  # in-repo function qualname -> replacement (callee boundary of a table)
+        self.class_stubs: dict[str, Callable[..., Any]] = {}  # in-repo class qualname -> replacement constructor
 
     # ------------------------------------------------------------------ public
     def call(self, fn: FunctionInfo, *args: Any, **kwargs: Any) -> Any:
@@ -900,6 +901,8 @@ class Interp:
         raise AnalysisError(f"call of {f!r} not modelled" + (f" at `{unparse(site)[:60]}`" if site is not None else ""))
 
     def _construct(self, cls: ClassInfo, args: list[Any], kwargs: dict[str, Any]) -> Any:
+        if cls.qualname in self.class_stubs:
+            return self.class_stubs[cls.qualname](self, *args, **kwargs)
         if self._is_enum(cls) and len(args) == 1:
             for m, v in cls.class_attrs.items():
                 if isinstance(v, ast.Constant) and v.value == args[0]:
